@@ -179,12 +179,12 @@ def conditions(tier, seed, active):
         nv = 1 if quick else 2
         for name in names:
             # every foreign name at the root of one host with one value kind (seeded rotation in quick; all value kinds in thorough)
-            for vk in (VALUE_KINDS if not quick else [rng.choice(VALUE_KINDS_QUICK)]):
+            for vk in (rng.sample(VALUE_KINDS, 3) if not quick else [rng.choice(VALUE_KINDS_QUICK)]):
                 h, k = rng.choice(hosts)
                 c("root/%s=%s/%s/d%d" % (name, vk, h, d), "foreign", dict(d=d, host=h, kind=k, name=name, vkind=vk, NV=nv))
-            if not quick or rng.random() < 0.25:
+            if rng.random() < (0.25 if quick else 0.6):
                 for pos in ("in_items", "in_properties", "in_applicator", "in_dependencies"):
-                    if quick and rng.random() < 0.5:
+                    if rng.random() < 0.5:
                         continue
                     h, k = rng.choice([hk for hk in hosts if hk[1] == "int"])
                     vk = rng.choice(VALUE_KINDS_QUICK if quick else VALUE_KINDS)
@@ -193,7 +193,7 @@ def conditions(tier, seed, active):
             for h, k in RELATED.get(name, []):
                 if d not in tp.BY_NAME[h].drafts or name in tp.top_keys(h, d):
                     continue
-                for vk in (("int", "bool", "obj_int") if quick else VALUE_KINDS):
+                for vk in (("int", "bool", "obj_int") if quick else ("int", "bool", "obj_int", "null", "str", "arr_int")):
                     c("related/%s=%s/%s/d%d" % (name, vk, h, d), "foreign", dict(d=d, host=h, kind=k, name=name, vkind=vk, NV=nv))
         # next to $ref: any keyword of the draft itself as well
         # (Draft 3 `required` next to $ref inside `properties` is read lexically by the parent: excluded by the property)
